@@ -266,6 +266,64 @@ func vRunBlockedCase(count int, delayMs int, during string, cbFail bool) []strin
 	return out
 }
 
+// vRunSlowFinally: Success / Fail is called shortly before the retry deadline and its `finally`
+// callback (which runs under the transaction's mutex) is still running when the retry timer fires:
+// the timer callback waits for the mutex and then finds the transaction finished - it must do nothing.
+func vRunSlowFinally(count int, delayMs int, op string) []string {
+	var mu sync.Mutex
+	var out []string
+	logf := func(format string, args ...interface{}) {
+		mu.Lock()
+		out = append(out, "> "+fmt.Sprintf(format, args...))
+		mu.Unlock()
+	}
+	ctx, cancel := context.WithCancel(context.Background())
+	defer cancel()
+	var doneSeen bool
+	ncb, nfinally := 0, 0
+	d := time.Duration(delayMs) * time.Millisecond
+	var rt *RetryTransaction
+	rt = NewRetryTransaction(ctx, d, uint(count), func(data interface{}) error {
+		mu.Lock()
+		ncb++
+		k := ncb
+		after := doneSeen
+		mu.Unlock()
+		if after {
+			logf("cbstart %d afterdone", k)
+		} else {
+			logf("cbstart %d", k)
+		}
+		return nil
+	}, func() {
+		mu.Lock()
+		nfinally++
+		doneSeen = true // Done is closed before `finally` runs
+		mu.Unlock()
+		logf("finally")
+		time.Sleep(2 * d)
+	})
+	rt.Proceed(nil, nil)
+	time.Sleep(d - d/4)
+	switch op {
+	case "S":
+		rt.Success()
+	case "F":
+		rt.Fail(vUserErr{3})
+	}
+	errAtDone := vErrClass(rt.Err())
+	logf("done %s", errAtDone)
+	time.Sleep(d * time.Duration(count+3))
+	if e := vErrClass(rt.Err()); e != errAtDone {
+		logf("errchanged %s->%s", errAtDone, e)
+	}
+	mu.Lock()
+	nf, nc := nfinally, ncb
+	mu.Unlock()
+	logf("final finally=%d cbs=%d", nf, nc)
+	return out
+}
+
 func TestVerifTx(t *testing.T) {
 	outPath := os.Getenv("VERIF_OUT")
 	if outPath == "" {
@@ -400,6 +458,26 @@ func TestVerifTx(t *testing.T) {
 					}
 					ymu.Unlock()
 				}(c, cnt)
+			}
+		}
+		wg.Wait()
+	}
+
+	// --- mode 2b: the retry timer fires while Success / Fail is still inside its `finally` callback
+	for rep := 0; rep < reps; rep++ {
+		for _, op := range []string{"S", "F"} {
+			for _, cnt := range []int{1, 3} {
+				wg.Add(1)
+				go func(op string, cnt int) {
+					defer wg.Done()
+					lines := vRunSlowFinally(cnt, 40, op)
+					ymu.Lock()
+					fmt.Fprintf(w, "Y %d 40 slowfinally-%s false\n", cnt, op)
+					for _, l := range lines {
+						fmt.Fprintln(w, l)
+					}
+					ymu.Unlock()
+				}(op, cnt)
 			}
 		}
 		wg.Wait()
